@@ -153,8 +153,7 @@ func isErrorType(t types.Type) bool {
 // c04LookupDerived: locals of fd that (transitively) hold the result of a lookup.
 func c04LookupDerived(info *types.Info, fd *ast.FuncDecl, like map[*types.Func]bool) map[types.Object]ast.Expr {
 	isLookup := func(call *ast.CallExpr) bool {
-		fn := callee(info, call)
-		return fn != nil && (isLookupFunc(fn) || like[fn.Origin()])
+		return isLookupCall(info, call, like)
 	}
 	lookupDerived := map[types.Object]ast.Expr{}
 	for changed := true; changed; {
@@ -216,6 +215,24 @@ func c04LookupDerived(info *types.Info, fd *ast.FuncDecl, like map[*types.Func]b
 	return lookupDerived
 }
 
+// isLookupCall: the call hands out what a reference designates — a Locate*/Resolve* function, a function that
+// returns what one of them returned (like), or a table of IR types / objects read by key (objectsToInline.Get(ref)).
+func isLookupCall(info *types.Info, call *ast.CallExpr, like map[*types.Func]bool) bool {
+	fn := callee(info, call)
+	if fn == nil {
+		return false
+	}
+	if isLookupFunc(fn) || like[fn.Origin()] {
+		return true
+	}
+	if fn.Name() == "Get" && fn.Pkg() != nil && fn.Pkg().Path() == omapPkgPath {
+		if t := info.TypeOf(call); t != nil && irCarrier(t) {
+			return true
+		}
+	}
+	return false
+}
+
 func c04Recursion(ctx *Ctx, r *Report, g *callGraph) map[*types.Func]bool {
 	like := c04LookupLike(ctx, g)
 	r.Count("lookup-like functions (Locate*/Resolve* and functions returning what they return)", len(like))
@@ -252,7 +269,7 @@ func c04Recursion(ctx *Ctx, r *Report, g *callGraph) map[*types.Func]bool {
 								derivedArg = a
 							}
 						}
-						if c2, ok := k.(*ast.CallExpr); ok && isLookupFunc(callee(info, c2)) {
+						if c2, ok := k.(*ast.CallExpr); ok && isLookupCall(info, c2, nil) {
 							derivedArg = a
 						}
 						return true
